@@ -5,20 +5,13 @@
    gen/Gen_tree_util.v); PRNG keys as paths of split indices; bit counters as
    (base, a, b) = a * log2 base + b (translated, gen/Gen_compression.v). *)
 From Coq Require Import ZArith QArith Qabs Qround Qminmax List Bool.
-From FV Require Import Common.ListX Common.CMonoid Common.NanQ Common.RingVec
+From FV Require Import Common.ListX Common.CMonoid Common.NanQ Common.NanVec Common.KeyPath Common.RingVec
   gen.Gen_tree_util gen.Gen_compression gen.Gen_walsh_hadamard Model.C18_Model.
 Import ListNotations.
 Local Open Scope Q_scope.
 
 Notation nq := NanQ.t.
-Definition nfloor : nq -> nq := NanQ.lift1 (fun q => inject_Z (Qfloor q)).
-Definition nceil : nq -> nq := NanQ.lift1 (fun q => inject_Z (Qceiling q)).
-Definition qsign (q : Q) : Q := inject_Z (Z.sgn (Qnum q)).
-Definition nsign : nq -> nq := NanQ.lift1 qsign.
-
-(* jnp.amin / jnp.amax of a non-empty array *)
-Definition amin (v : list nq) : nq := match v with [] => None | x :: r => fold_left NanQ.min r x end.
-Definition amax (v : list nq) : nq := match v with [] => None | x :: r => fold_left NanQ.max r x end.
+(* nfloor, nceil, nsign, amin, amax: Common/NanVec.v *)
 
 (* v = nan_to_num((v - v_min) / (v_max - v_min)); v = maximum(0, minimum(v, 1)) *)
 Definition rescale (vmin vmax x : nq) : nq :=
@@ -36,7 +29,7 @@ Definition usq_ceil (Lm1 c : nq) : nq := NanQ.div (nceil (NanQ.mul c Lm1)) Lm1.
 Definition usq_threshold (Lm1 c : nq) : nq :=
   NanQ.nan_to_num (NanQ.div (NanQ.sub c (usq_floor Lm1 c)) (NanQ.sub (usq_ceil Lm1 c) (usq_floor Lm1 c))).
 Definition usq1 (vmin vmax : nq) (L : Z) (x : nq) (u : Q) : nq :=
-  let Lm1 := NanQ.of_Z (L - 1) in
+  let Lm1 := NanQ.sub (NanQ.of_Z L) NanQ.one in
   let c := rescale vmin vmax x in
   let quantized := NanQ.where_ (NanQ.gtb (Some u) (usq_threshold Lm1 c)) (usq_floor Lm1 c) (usq_ceil Lm1 c) in
   NanQ.add vmin (NanQ.mul quantized (NanQ.sub vmax vmin)).
@@ -124,8 +117,7 @@ Definition drive_agg (signs : list (list (list bool))) (cl : list (tree * nq)) :
 
 (* ---- keys: paths of jax.random.split indices from the aggregator's root key ---- *)
 Definition path := list nat.
-(* hk.PRNGSequence(k) with the default reserve size 1: the c-th key is split(...split(k)[0]...)[1] *)
-Definition seq_key (k : path) (c : nat) : path := k ++ repeat 0%nat c ++ [1%nat].
+(* seq_key (hk.PRNGSequence): Common/KeyPath.v *)
 (* rng, use_rng = split(state.rng): the state after t rounds, and the keys of round t *)
 Definition usq_state (t : nat) : path := repeat 0%nat t.
 Definition usq_key (t c l : nat) : path := seq_key (usq_state t ++ [1%nat]) c ++ [l].
@@ -179,8 +171,14 @@ Definition sweep_ok (sc : Q) (G : Z) (o : sweep) (m : nq * (nq * (nq * nq))) : b
 
 Inductive qfn := FUsq (L : Z) | FBsq | FTern (sigma : Q).
 
+(* the correspondence evaluates the TRANSLATED bodies (= usq / bsq / tern / drive_leaf by
+   C11_translated_quantizers_are_model) *)
 Definition qvec (fn : qfn) (v : list nq) (us : list Q) : list nq :=
-  match fn with FUsq L => usq v L us | FBsq => bsq v us | FTern sg => tern sg v us end.
+  match fn with
+  | FUsq L => gen_usq v (NanQ.of_Z L) (map Some us) None None
+  | FBsq => gen_bsq v (map Some us) None None
+  | FTern sg => gen_tern (fun _ => Some sg) v (map Some us)
+  end.
 
 Definition uagree (fn : qfn) (v : list Q) (G : Z) (obs : list sweep) : bool :=
   let n := length v in
@@ -193,7 +191,7 @@ Definition uagree (fn : qfn) (v : list Q) (G : Z) (obs : list sweep) : bool :=
   (length obs =? n)%nat && (length o_hi =? n)%nat && (length o_lo =? n)%nat && (length o_a =? n)%nat && (length o_b =? n)%nat &&
   forallb (fun om => sweep_ok sc G (fst om) (snd om)) (combine obs (combine o_hi (combine o_lo (combine o_a o_b)))).
 
-Definition dagree (x : list Q) (obs : list Q) : bool := all2 (qclose tolq) (drive_leaf (lift x)) obs.
+Definition dagree (x : list Q) (obs : list Q) : bool := all2 (qclose tolq) (gen_drive_leaf (lift x)) obs.
 
 Inductive akind := AUsq (L : Z) | ATern (sig : list (list Q)) | ARusq (L : Z) (signs : list (list bool))
                  | ADrive (signs : list (list (list bool))).
